@@ -50,9 +50,9 @@ pub struct Case {
     copies: usize,      // 0 single, 1 identical second copy, 2 conflicting copy (origin), 3 conflicting copy (limits only)
 }
 
-const NAMINGS: [&str; 10] = [
+const NAMINGS: [&str; 11] = [
     "jointN", "joint_N", "${prefix}joint_aN", "left_joint_N", "JOINT_N", "${prefix}JOINT_AN", "explicit-one-based", "explicit-zero-based",
-    "kuka_arm_joint_aN", "robot_a_JOINT_AN",
+    "kuka_arm_joint_aN", "robot_a_JOINT_AN", "explicit-list-of-left_joint_N",
 ];
 
 fn joint_name(naming: usize, n: usize) -> String {
@@ -67,6 +67,8 @@ fn joint_name(naming: usize, n: usize) -> String {
         // a literal prefix that contains the decoration letter between "joint" and the number
         8 => format!("kuka_arm_joint_a{n}"),
         9 => format!("robot_a_JOINT_A{n}"),
+        // the same decorated raw names as scheme 3, this time handed over as an explicit list
+        10 => format!("left_joint_{n}"),
         _ => format!("lf_joint_{}", n - 1),
     }
 }
@@ -243,7 +245,7 @@ pub fn document(c: &Case) -> (String, Option<[String; 6]>, Expect) {
             "<?xml version=\"1.0\"?>\n<robot xmlns:xacro=\"http://wiki.ros.org/xacro\">\n<xacro:macro name=\"cell\" params=\"prefix\">\n<group>\n{body}</group>\n</xacro:macro>\n</robot>\n"
         ),
     };
-    let names = if c.naming == 6 || c.naming == 7 { Some(std::array::from_fn(|i| joint_name(c.naming, i + 1))) } else { None };
+    let names = if c.naming == 6 || c.naming == 7 || c.naming == 10 { Some(std::array::from_fn(|i| joint_name(c.naming, i + 1))) } else { None };
     (wrapped, names, expect)
 }
 
@@ -253,7 +255,43 @@ enum Outcome {
     Panic(String),
 }
 
+/// A different, well-formed description (other lengths, names with another decoration, other limits): parsed just before
+/// one in 64 of the documents under test, so that anything the extractor remembers between calls would show.
+const DECOY_URDF: &str = r#"<?xml version="1.0"?><robot name="decoy">
+<joint name="tool_joint_a1" type="revolute"><origin xyz="0 0 0.71" rpy="0 0 0"/><axis xyz="0 0 -1"/><limit lower="-1.1" upper="1.2" effort="0" velocity="1"/></joint>
+<joint name="tool_joint_a2" type="revolute"><origin xyz="0.21 0 0" rpy="0 0 0"/><axis xyz="0 1 0"/><limit lower="-0.5" upper="0.6" effort="0" velocity="1"/></joint>
+<joint name="tool_joint_a3" type="revolute"><origin xyz="0 0 0.93" rpy="0 0 0"/><axis xyz="0 -1 0"/><limit lower="-2.1" upper="0.3" effort="0" velocity="1"/></joint>
+<joint name="tool_joint_a4" type="revolute"><origin xyz="0 0 0.17" rpy="0 0 0"/><axis xyz="0 0 1"/><limit lower="-3.0" upper="3.0" effort="0" velocity="1"/></joint>
+<joint name="tool_joint_a5" type="revolute"><origin xyz="0 0 0.88" rpy="0 0 0"/><axis xyz="0 1 0"/><limit lower="-1.9" upper="1.9" effort="0" velocity="1"/></joint>
+<joint name="tool_joint_a6" type="revolute"><origin xyz="0 0 0.12" rpy="0 0 0"/><axis xyz="0 0 -1"/></joint>
+</robot>"#;
+
 fn extract(xml: &str, names: &Option<[String; 6]>) -> Outcome {
+    // ... and one in 16 documents is first extracted in the *other* naming mode (automatic name simplification vs. an
+    // explicit list of the raw names found in it): the two modes must not influence each other
+    if xml.len() % 16 == 1 {
+        let raw: Vec<String> = xml.match_indices("<joint name=\"").filter_map(|(i, m)| {
+            let rest = &xml[i + m.len()..];
+            let name = &rest[..rest.find('"')?];
+            if xml[i..].starts_with("<joint name=") && rest[rest.find('"')? ..].starts_with("\" type=\"revolute\"") { Some(name.to_string()) } else { None }
+        }).collect();
+        let _ = catch_unwind(AssertUnwindSafe(|| {
+            if names.is_some() {
+                let _ = from_urdf(xml.to_string(), &None);
+            } else if raw.len() >= 6 {
+                let mut sorted = raw.clone();
+                sorted.sort();
+                sorted.dedup();
+                if sorted.len() == 6 {
+                    let refs: [&str; 6] = std::array::from_fn(|i| sorted[i].as_str());
+                    let _ = from_urdf(xml.to_string(), &Some(refs));
+                }
+            }
+        }));
+    }
+    if xml.len() % 64 == 0 {
+        let _ = catch_unwind(AssertUnwindSafe(|| from_urdf(DECOY_URDF.to_string(), &None)));
+    }
     let r = catch_unwind(AssertUnwindSafe(|| {
         let refs: Option<[&str; 6]> = names.as_ref().map(|n| std::array::from_fn(|i| n[i].as_str()));
         from_urdf(xml.to_string(), &refs)
@@ -449,7 +487,7 @@ pub fn run(ctx: &Ctx) -> Report {
     });
     rep.traces_validated = rep.transitions;
     rep.rule = format!(
-        "generated descriptions: 9 parameter records (incl. exact relations between parameters of one origin) x layouts {{c2 on z|x}} x {{c3 on joint 5|4}} x {{wrist along z|x}} x 10 naming schemes (incl. decorated, a literal prefix sharing the decoration letter, \
+        "generated descriptions: 9 parameter records (incl. exact relations between parameters of one origin) x layouts {{c2 on z|x}} x {{c3 on joint 5|4}} x {{wrist along z|x}} x 11 naming schemes (incl. decorated, a literal prefix sharing the decoration letter, the same decorated names once resolved automatically and once listed explicitly, \
          upper-case, explicit one-/zero-based lists) x nesting {{flat, xacro:macro, two levels}} x {n_order} joint-order permutations, with sign pattern (64), axis \
          syntax, limit syntax (6 uniform + 3 mixed per joint: even joints only, all but J6, J1/J4 absent with J3 unreadable) and single/identical/conflicting (origin; limits only) copy rotating along the permutation axis; oracle: parameters equal the printed decimals, \
          signs, limits, solver constraints follow arc membership (no <limit> => unconstrained), conflicting copy => Err; error paths: each joint missing, \
